@@ -5,16 +5,13 @@
 
    Schedules are arbitrary interleavings of writes at either end, deliveries in either
    direction ("order-preserving delays") and firings of the four ERTM timers (labels
-   TimeoutRetxA/B, TimeoutMonA/B of Model/Ertm.v).  The SAFETY statements (in-order
-   prefix, window, sequence numbers, frames = segments, well-formed frames, bounded
-   draining) hold for ALL schedules.  COMPLETE delivery at quiescence is proved under the
-   hypothesis [no_timer sched = true] - no timer fires, i.e. no acknowledgement is delayed
-   beyond the retransmission timeout - and is therefore named ..._partial;
-   C08_ertm_timer_stall_refuted shows the hypothesis is necessary (known finding D08t).
-   The two FIFO channels neither lose nor reorder frames. *)
+   TimeoutRetxA/B, TimeoutMonA/B of Model/Ertm.v): ALL statements below hold for ALL
+   schedules, timers included (the model is of the code after fixes/D08.patch and
+   fixes/D08t.patch).  The two FIFO channels neither lose nor reorder frames. *)
 From Coq Require Import ZArith List Bool.
 From BV Require Import Model.Crc16 Model.Ertm Model.L2capConfig Gen.C08Tables.
-From BV Require Import Proofs.ErtmSeg Proofs.Ertm Proofs.ErtmWire Proofs.ErtmLive Proofs.L2capConfig.
+From BV Require Import Proofs.ErtmSeg Proofs.Ertm Proofs.ErtmWire Proofs.ErtmLive Proofs.ErtmForeign.
+From BV Require Import Proofs.L2capConfig.
 Import ListNotations.
 Open Scope Z_scope.
 
@@ -31,21 +28,21 @@ Theorem C08_ertm_in_order_prefix : forall mps_a win_a mps_b win_b sched,
 Proof. exact ertm_in_order_prefix. Qed.
 Print Assumptions C08_ertm_in_order_prefix.
 
-(* ERTM completeness - PARTIAL: proved for schedules in which no timer fires.  When both
-   channels are empty each sink holds exactly what the peer wrote and nothing is left
-   queued, unacknowledged or half reassembled.  What is missing: schedules with timer
-   events, where the statement is false of the code (C08_ertm_timer_stall_refuted). *)
-Theorem C08_ertm_exactly_once_in_order_partial : forall mps_a win_a mps_b win_b sched,
-  params_ok mps_a win_a mps_b win_b -> no_timer sched = true ->
+(* ERTM, complete delivery: when both channels are empty each sink holds exactly what the
+   peer wrote and nothing is left queued, unacknowledged, half reassembled or blocked by a
+   monitor handle - whatever timers fired on the way. *)
+Theorem C08_ertm_exactly_once_in_order : forall mps_a win_a mps_b win_b sched,
+  params_ok mps_a win_a mps_b win_b ->
   let s := run (sys_init mps_a win_a mps_b win_b) sched in
   (exists j, s_sink_b s = firstn j (writes_a sched)) /\
   (exists j, s_sink_a s = firstn j (writes_b sched)) /\
   (quiescent s = true ->
      s_sink_b s = writes_a sched /\ s_sink_a s = writes_b sched /\
      e_pend (s_a s) = [] /\ e_txw (s_a s) = [] /\ e_pend (s_b s) = [] /\ e_txw (s_b s) = [] /\
-     e_insdu (s_a s) = [] /\ e_insdu (s_b s) = []).
+     e_insdu (s_a s) = [] /\ e_insdu (s_b s) = [] /\
+     e_mon (s_a s) = MonNone /\ e_mon (s_b s) = MonNone).
 Proof. exact ertm_exactly_once_in_order. Qed.
-Print Assumptions C08_ertm_exactly_once_in_order_partial.
+Print Assumptions C08_ertm_exactly_once_in_order.
 
 (* The I-frames ever sent are those acknowledged plus those in the transmit window, and
    the transmit window never holds more than the window the peer advertised. *)
@@ -83,10 +80,10 @@ Proof. exact frames_are_segments. Qed.
 Print Assumptions C08_frames_are_segments.
 
 (* Draining: from any reachable state, a run of deliveries (each enabled when taken, in any
-   order) has at most measure(s) steps - 3 per queued pdu, 2 per I-frame and 1 per S-frame
-   in flight - so once writing stops the system is quiescent after finitely many
-   deliveries, and there (no timer having fired) C08_ertm_exactly_once_in_order_partial
-   says every SDU written has been delivered. *)
+   order) has at most measure(s) steps - 3 per queued pdu, 2 per I-frame or poll and 1 per
+   other S-frame in flight - so once writing and timer firing stop the system is quiescent
+   after finitely many deliveries, and there C08_ertm_exactly_once_in_order says every SDU
+   written has been delivered, exactly once and in order. *)
 Theorem C08_ertm_drains : forall mps_a win_a mps_b win_b sched more,
   params_ok mps_a win_a mps_b win_b ->
   let s := run (sys_init mps_a win_a mps_b win_b) sched in
@@ -94,16 +91,35 @@ Theorem C08_ertm_drains : forall mps_a win_a mps_b win_b sched more,
 Proof. exact ertm_drains. Qed.
 Print Assumptions C08_ertm_drains.
 
-(* The no_timer hypothesis cannot be dropped: MPS 10, window 2, a 100-byte SDU; the
-   retransmission timer fires before the first acknowledgement arrives.  The monitor
-   handle then blocks the output for good: quiescent, 8 pdus queued, nothing delivered. *)
-Theorem C08_ertm_timer_stall_refuted :
-  exists sched,
-    let s := run (sys_init 10 2 10 2) sched in
-    params_ok 10 2 10 2 /\ quiescent s = true /\ writes_a sched <> [] /\
-    s_sink_b s = [] /\ length (e_pend (s_a s)) = 8%nat /\ e_mon (s_a s) = MonDead.
-Proof. exact ertm_timer_stall_refuted. Qed.
-Print Assumptions C08_ertm_timer_stall_refuted.
+(* The schedule on which the code stalled before fixes/D08t.patch: MPS 10, window 2, a
+   100-byte SDU, the retransmission timer and then the monitor timer fire before the first
+   acknowledgement arrives.  One poll (P=1), one answer (F=1), everything delivered. *)
+Theorem C08_ertm_timer_recovers :
+  let s := run (sys_init 10 2 10 2)
+             ([WriteA (repeat 7 100); TimeoutRetxA; DeliverAB; DeliverAB; DeliverAB; TimeoutMonA]
+              ++ repeat DeliverBA 3 ++ flat_map (fun _ => [DeliverAB; DeliverAB; DeliverBA; DeliverBA])
+                                               (seq 0 4)) in
+  quiescent s = true /\ s_sink_b s = [repeat 7 100] /\ e_mon (s_a s) = MonNone /\
+  npolls (s_log_ab s) = 1 /\ nfinals (s_log_ba s) = 1.
+Proof. exact ertm_timer_recovers. Qed.
+Print Assumptions C08_ertm_timer_recovers.
+
+(* ONE bumble endpoint against an arbitrary, possibly hostile, peer: whatever frames arrive
+   (REJ, SREJ, RNR, polls, bogus acknowledgements, out-of-sequence or malformed I-frames -
+   given as frames or as raw payloads), mixed in any order with local writes and timer
+   firings, for any peer MPS >= 1 and ANY advertised window >= 0: the transmit window never
+   exceeds the peer's window; the I-frames sent are a prefix of the numbered segment
+   stream of the SDUs written, so TxSeq = i mod 64 without gap or repetition; the only
+   supervisory frames sent are RR. *)
+Theorem C08_ertm_foreign_peer_safe : forall pmps pwin ls,
+  1 <= pmps -> 0 <= pwin ->
+  let '(e, out, _) := erun (ep_init pmps pwin) ls in
+  zlen (e_txw e) <= pwin /\
+  (exists rest, map pkey (number 0 (segs_of pmps (ewrites ls))) = ikeys out ++ rest) /\
+  map tx_of (ikeys out) = map (fun i => Z.of_nat i mod 64) (seq 0 (length (ikeys out))) /\
+  Forall sframe_ok out.
+Proof. exact ertm_foreign_peer_safe. Qed.
+Print Assumptions C08_ertm_foreign_peer_safe.
 
 (* Every frame either end ever sends is well formed (sequence numbers in 0..63, 16-bit SDU
    length on START frames, only RR supervisory frames) when SDUs are shorter than 65536
@@ -247,6 +263,16 @@ Proof. vm_compute. split; reflexivity. Qed.
 Example C08_nonvacuous_wrap :
   map p_tx (skipn 62 (fst (assign 0 (segment 1 (repeat 7 70))))) = [62; 63; 0; 1; 2; 3; 4; 5].
 Proof. vm_compute. reflexivity. Qed.
+
+(* a foreign peer: RNR stops the output, REJ (ignored but for its ReqSeq) resumes it, a
+   bogus acknowledgement of 5 frames is ignored, a poll is answered with F=1 *)
+Example C08_nonvacuous_foreign :
+  let '(e, out, _) := erun (ep_init 2 2)
+        [EWrite [1;2;3;4;5;6;7]; ERecv (SFrame RNR false false 1); ERecv (SFrame RR false false 5);
+         ERecv (SFrame REJ false false 2); ERecv (SFrame RR true false 2)] in
+  map tx_of (ikeys out) = [0; 1; 2; 3] /\ length (e_txw e) = 2%nat /\
+  nfinals out = 1 /\ e_busy e = false.
+Proof. vm_compute. repeat split. Qed.
 
 (* FCS requested by A, B without the FCS option: ends OPEN/OPEN without FCS *)
 Example C08_nonvacuous_setup_fcs :
